@@ -109,10 +109,20 @@ def compare_with_model(ctx, reqs, op='DIFF'):
     lines, metas, out = [], [], []
     for (case, t1, t2, z, thr, ip, vb) in reqs:
         try:
+            DF.diff_line(t1, t2, z, thr, ip, vb)
+            inside = True
+        except OutOfUniverse:
+            inside = False
+        try:
             dd = DF.impl_text(t1, t2, z, thr, ip, vb)
             a = DF.impl_answer(dd, vb)
-        except OutOfUniverse:
-            ctx.count('out_of_universe'); out.append((case, None, None)); continue
+        except OutOfUniverse as e:
+            if inside and ctx.build_ok:
+                # both inputs are values of the model universe, the reported value is not: nothing the model can answer equals it
+                ctx.diverge(case, 'a reported value outside the universe of the inputs: %s' % str(e)[:120], '(every value of a model result is a part of an input)', op=op)
+            else:
+                ctx.count('out_of_universe')
+            out.append((case, None, None)); continue
         except DF.BadDiffText as e:
             ctx.violate(case, str(e)); out.append((case, None, None)); continue
         except Exception as e:
